@@ -221,6 +221,7 @@ fn c05c_judge(_prog: &Prog, out: &ConcOut) -> Result<(bool, Vec<(&'static str, u
 }
 pub const C05C: ConcCheck = ConcCheck { asked: "C05", sub: "conc", mix: Mix::Readers, max_threads: 3, max_ops: 3, opts: C01.opts, judge: c05c_judge, mk_probe: NO_PROBE };
 pub const C05R: ConcCheck = ConcCheck { asked: "C05", sub: "conc-resize", mix: Mix::Resize, max_threads: 3, max_ops: 3, opts: C01.opts, judge: c05c_judge, mk_probe: NO_PROBE };
+pub const C05L: ConcCheck = ConcCheck { asked: "C05", sub: "conc-long", mix: Mix::Long, max_threads: 8, max_ops: 12, opts: C01.opts, judge: c05c_judge, mk_probe: NO_PROBE };
 
 fn c04c_judge(_prog: &Prog, out: &ConcOut) -> Result<(bool, Vec<(&'static str, u64)>), JudgeErr> {
     base_judge("C04", out)?;
@@ -364,6 +365,7 @@ pub const C11: ConcCheck = ConcCheck {
     mk_probe: NO_PROBE,
 };
 pub const C11B: ConcCheck = ConcCheck { sub: "term-perkey", mix: Mix::PerKey, ..C11 };
+pub const C11L: ConcCheck = ConcCheck { sub: "term-long", mix: Mix::Long, max_threads: 8, max_ops: 12, ..C11 };
 pub const C11C: ConcCheck = ConcCheck { sub: "term-resize", mix: Mix::Resize, ..C11 };
 
 fn c11_shard(ctx: &Ctx, out: &mut ShardOut) {
@@ -372,6 +374,8 @@ fn c11_shard(ctx: &Ctx, out: &mut ShardOut) {
     C11.run(ctx, &pool, 11, ctx.share(ctx.by_tier(160, 6_000)) as u32, &b, out);
     C11B.run(ctx, &pool, 12, ctx.share(ctx.by_tier(160, 6_000)) as u32, &b, out);
     C11C.run(ctx, &pool, 15, ctx.share(ctx.by_tier(96, 4_000)) as u32, &b, out);
+    let lb = Budget { single: 0, double: 0, coarse2: 0, tapes: ctx.by_tier(24, 200) as usize, tape_seed: ctx.shard_seed(93) };
+    C11L.run(ctx, &pool, 19, ctx.share(ctx.by_tier(96, 3_000)) as u32, &lb, out);
 }
 fn c11_replay(sub: &str, case: &Value) -> Result<(), CaseFail> {
     let pool = Pool::new();
@@ -379,6 +383,7 @@ fn c11_replay(sub: &str, case: &Value) -> Result<(), CaseFail> {
     match sub {
         "term-perkey" => C11B.replay(&pool, case, &b),
         "term-resize" => C11C.replay(&pool, case, &b),
+        "term-long" => C11L.replay(&pool, case, &Budget { single: 0, double: 0, coarse2: 0, tapes: 200, tape_seed: 1 }),
         _ => C11.replay(&pool, case, &b),
     }
 }
